@@ -53,10 +53,22 @@ def register(reg, prog):
                  raises={'DecodeError': PARSED + ' is None'},
                  ensures={'no-protected-part': 'len(result[0]) == 0 and len(result[1]) == 0',
                           'payload-is-the-ciphertext': 'result[3] == payload',
-                          'partial-iv': 'implies(P is not None, (6 in result[2]) == (len(P[0]) > 0) and implies(6 in result[2], result[2][6] == P[0]))'.replace('P', PARSED),
+                          'partial-iv-present': 'implies(P is not None, (6 in result[2]) == (len(P[0]) > 0))'.replace('P', PARSED),
+                          'partial-iv-value': 'implies(P is not None, implies(6 in result[2], result[2][6] == P[0]))'.replace('P', PARSED),
                           'partial-iv-length-not-reserved': 'implies(P is not None, implies(6 in result[2], 1 <= len(result[2][6]) <= 5))'.replace('P', PARSED),
-                          'kid': 'implies(P is not None, (4 in result[2]) == (P[1] is not None) and implies(4 in result[2], result[2][4] == P[1]))'.replace('P', PARSED),
-                          'kid-context': 'implies(P is not None, (10 in result[2]) == (P[2] is not None) and implies(10 in result[2], result[2][10] == P[2]))'.replace('P', PARSED),
+                          'kid-present': 'implies(P is not None, (4 in result[2]) == (P[1] is not None))'.replace('P', PARSED),
+                          # the kid is "the rest of the option" after flag byte, partial IV and context hint (whose values are tied to the spec above), i.e. data[pos:]
+                          # and byte for byte the suffix of the option -- stated pointwise, the direct equality of the two
+                          # differently nested slices takes z3 5.1 more than its budget (z3 4.8.12 proves it in seconds)
+                          'kid-length': 'implies(4 in result[2], len(result[2][4]) == len(option_data) - 1 - (len(result[2][6]) if 6 in result[2] else 0) '
+                                        '- ((1 + len(result[2][10])) if 10 in result[2] else 0))',
+                          'kid-is-the-rest-of-the-option': 'implies(4 in result[2], forall(j, 0, len(result[2][4]), '
+                                                           'result[2][4][j] == option_data[len(option_data) - len(result[2][4]) + j]))',
+                          'kid-context-present': 'implies(P is not None, (10 in result[2]) == (P[2] is not None))'.replace('P', PARSED),
+                          'kid-context-length-byte': 'implies(10 in result[2], len(result[2][10]) == option_data[1 + (len(result[2][6]) if 6 in result[2] else 0)])',
+                          'kid-context-follows-its-length-byte': 'implies(10 in result[2], forall(j, 0, len(result[2][10]), '
+                                                                 'result[2][10][j] == option_data[2 + (len(result[2][6]) if 6 in result[2] else 0) + j]))',
+                          'kid-context-value': 'implies(P is not None, implies(10 in result[2], result[2][10] == P[2]))'.replace('P', PARSED),
                           'group-flag': 'implies(P is not None, (12 in result[2]) == P[3])'.replace('P', PARSED),
                           'nothing-else': 'len(result[2]) == (1 if 6 in result[2] else 0) + (1 if 4 in result[2] else 0) + (1 if 10 in result[2] else 0) + (1 if 12 in result[2] else 0)',
                           'fresh-maps': 'is_new(result[1]) and is_new(result[2])'})
@@ -170,7 +182,9 @@ def register(reg, prog):
                  ensures={'fields-as-in-the-option': '(6 in result[2]) == (len(parse_oscore_option(message.opt.oscore)[0]) > 0) and '
                                                      '(4 in result[2]) == (parse_oscore_option(message.opt.oscore)[1] is not None) and '
                                                      '(10 in result[2]) == (parse_oscore_option(message.opt.oscore)[2] is not None)',
-                          'kid-as-in-the-option': 'implies(4 in result[2], result[2][4] == parse_oscore_option(message.opt.oscore)[1])',
+                          'kid-is-the-rest-of-the-option': 'implies(4 in result[2], len(result[2][4]) == len(message.opt.oscore) - 1 - (len(result[2][6]) if 6 in result[2] else 0) '
+                                                           '- ((1 + len(result[2][10])) if 10 in result[2] else 0) and forall(j, 0, len(result[2][4]), '
+                                                           'result[2][4][j] == message.opt.oscore[len(message.opt.oscore) - len(result[2][4]) + j]))',
                           'kid-context-as-in-the-option': 'implies(10 in result[2], result[2][10] == parse_oscore_option(message.opt.oscore)[2])',
                           'partial-iv-as-in-the-option': 'implies(6 in result[2], result[2][6] == parse_oscore_option(message.opt.oscore)[0])'},
                  modifies=[])
